@@ -1420,6 +1420,26 @@ static void families(const std::string &prop, const std::string &tier)
               for (auto i : idx)
                 s.la.push_back(pool[i]);
               g_specs.push_back(s); });
+    // (B) boxes: ALL 4-subsets of a reduced pool (x, y, x-y against 0 and 1 with <= and >=), so that a row with
+    // coefficients of both signs is propagated while BOTH bounds of one of its variables are finite and each of the
+    // bounds involved has its own reason literal; one level shallower than the 3-atom networks
+    {
+      std::vector<LAtom> bp;
+      for (auto &e : std::vector<std::vector<Q>>{{1, 0}, {0, 1}, {1, -1}})
+        for (int op : {0, 2})
+          for (auto &k : {Q(0), Q(1)})
+            bp.push_back(LA(e, op, k));
+      subsets(bp.size(), 4, [&](const std::vector<size_t> &idx)
+              {
+                if (idx.size() != 4)
+                  return;
+                Spec s;
+                s.nlra = 2;
+                for (auto i : idx)
+                  s.la.push_back(bp[i]);
+                s.depth = th ? 4 : 3;
+                g_specs.push_back(s); });
+    }
   }
   else if (prop == "C10")
   {
